@@ -79,6 +79,25 @@ fn main() {
             for a in def.assumptions {
                 rep.assume(a);
             }
+            let rep = std::sync::Arc::new(rep);
+            // Harness-level safety net: a run that exceeds its budget is reported as
+            // inconclusive (exit 2), never as a violation.
+            let budget = std::env::var("VERIF_HARNESS_TIMEOUT_S")
+                .ok()
+                .and_then(|s| s.parse::<u64>().ok())
+                .unwrap_or(match tier {
+                    Tier::Quick => 1500,
+                    Tier::Thorough => 6 * 3600,
+                });
+            {
+                let rep = rep.clone();
+                std::thread::spawn(move || {
+                    std::thread::sleep(std::time::Duration::from_secs(budget));
+                    rep.mark_inconclusive(format!("harness time budget of {budget} s exceeded"));
+                    let code = rep.finish(tier, seed as i64 as u64);
+                    std::process::exit(if code == 1 { 1 } else { 2 });
+                });
+            }
             (def.run)(&ctx, &rep);
             let code = rep.finish(tier, seed as i64 as u64);
             std::process::exit(code);
